@@ -282,3 +282,83 @@ pub fn run13() {
         println!("{}", r);
     });
 }
+
+/// Executor::drop, sequential (C10): `<n tasks> <polls before ready, 0 = never ready> <dispatches before the drop>`.
+/// After the executor source is removed from the loop (and dropped) every future it still owned must have been dropped, and
+/// every completed task must have delivered its output once. Output: scheduled dropped delivered polls_ok
+struct CountFut {
+    left: u32,
+    never: bool,
+    dropped: Arc<std::sync::atomic::AtomicUsize>,
+}
+impl Future for CountFut {
+    type Output = usize;
+    fn poll(mut self: Pin<&mut Self>, cx: &mut Context<'_>) -> Poll<usize> {
+        if !self.never && self.left == 0 {
+            return Poll::Ready(1);
+        }
+        if self.left > 0 {
+            self.left -= 1;
+        }
+        // stay runnable: wake itself
+        cx.waker().wake_by_ref();
+        Poll::Pending
+    }
+}
+impl Drop for CountFut {
+    fn drop(&mut self) {
+        self.dropped.fetch_add(1, std::sync::atomic::Ordering::SeqCst);
+    }
+}
+
+fn run_drop_case(line: &str) -> String {
+    let ws: Vec<u32> = line.split_whitespace().filter_map(|w| w.parse().ok()).collect();
+    if ws.len() != 3 {
+        return "BAD".into();
+    }
+    let (n, polls, disp) = (ws[0] as usize, ws[1], ws[2]);
+    let dropped = Arc::new(std::sync::atomic::AtomicUsize::new(0));
+    let delivered = Arc::new(std::sync::atomic::AtomicUsize::new(0));
+    let mut event_loop: EventLoop<'static, ()> = EventLoop::try_new().expect("loop");
+    let (exec, scheduler) = executor::<usize>().expect("executor");
+    let d2 = delivered.clone();
+    let token = event_loop
+        .handle()
+        .insert_source(exec, move |_, _, _| {
+            d2.fetch_add(1, std::sync::atomic::Ordering::SeqCst);
+        })
+        .expect("insert");
+    for _ in 0..n {
+        let _ = scheduler.schedule(CountFut {
+            left: polls,
+            never: polls == 0,
+            dropped: dropped.clone(),
+        });
+    }
+    for _ in 0..disp {
+        let _ = event_loop.dispatch(Some(Duration::ZERO), &mut ());
+    }
+    event_loop.handle().remove(token);
+    let after = scheduler.schedule(CountFut {
+        left: 0,
+        never: false,
+        dropped: Arc::new(std::sync::atomic::AtomicUsize::new(0)),
+    });
+    let refused = after.is_err();
+    drop(scheduler);
+    let _ = event_loop.dispatch(Some(Duration::ZERO), &mut ());
+    format!(
+        "{} {} {} {}",
+        n,
+        dropped.load(std::sync::atomic::Ordering::SeqCst),
+        delivered.load(std::sync::atomic::Ordering::SeqCst),
+        refused as u8
+    )
+}
+
+pub fn run_drop() {
+    crate::for_each_line(|l| {
+        let r = std::panic::catch_unwind(|| run_drop_case(l)).unwrap_or_else(|_| "PANIC".to_string());
+        println!("{}", r);
+    });
+}
